@@ -1116,7 +1116,7 @@ impl Property for C09 {
     }
 
     fn rule(&self) -> String {
-        "A case is (lines, files, terminal script, fault list). Two of three runs start from a C08 job (scoping ops, macros with parameters, open conditionals, allocations, read streams, \\input, mode switches, recoverable errors); the third is pure token soup; every run gets 1-10 extra lines of token soup (installed primitives, boundary numbers at and beyond every limit incl. surrogates and 2^31, dimensions, braces, parameter characters, non-ASCII characters, ^^ notation) or of targeted templates (a primitive applied to boundary arguments), starts in one of the four interaction modes and switches mode at random lines. Two of three runs get 1-3 faults placed in the job: main input or a file truncated at any byte, one byte flipped to another ASCII character, a line lost or duplicated, a file missing or unreadable (EIO / EPERM / invalid UTF-8), the terminal exhausted or failing (EIO / EINTR) on call k. Invariants per line: no panic; VM::run returns; an error carries a position (token trace, end-of-input trace, override or non-empty stack); it renders without panicking to non-empty text; the execution stack is empty between lines. Lines that exhaust the step budget are not judged. Non-trivial = at least one structured error was raised or at least one fault was injected. Distinct = distinct FNV hash of the serialised case.".into()
+        "A case is (lines, files, terminal script, fault list). Two of three runs start from a C08 job (scoping ops, macros with parameters, open conditionals, allocations, read streams, \\input, mode switches, recoverable errors); the third is pure token soup; every run gets 1-10 extra lines of token soup (installed primitives, boundary numbers at and beyond every limit incl. surrogates and 2^31, dimensions, braces, parameter characters, non-ASCII characters, ^^ notation) or of targeted templates (a primitive applied to boundary arguments), starts in one of the four interaction modes and switches mode at random lines. Two of three runs get 1-3 faults placed in the job: main input or a file truncated at any byte, one byte flipped to another ASCII character, a line lost or duplicated, a file missing or unreadable (EIO / EPERM / invalid UTF-8), the terminal exhausted or failing (EIO / EINTR) on call k. Invariants per line: no panic; VM::run returns; an error carries a position (token trace, end-of-input trace, override or non-empty stack); it renders without panicking to non-empty text; the execution stack is empty between lines. Lines that exhaust a step budget are not judged, with one exception: in the self-including-files scenario (shapes that nest one level per round in TeX, default line-end handling, files and line undamaged) a run cut off by the file-read budget without a single macro expansion is reported as an \\input recursion that no nesting limit stopped. Further environment events: a file replaced between two lines and read again by the same VM; the working directory unknown. Jobs that touch neither files nor the terminal and finish within every budget are executed a second time on the repository's own StdLibState (one eligible run in two) under the same invariants. Non-trivial = at least one structured error was raised or at least one fault was injected. Distinct = distinct FNV hash of the serialised case.".into()
     }
     fn assumptions(&self) -> Vec<String> {
         vec![
